@@ -54,8 +54,8 @@ Qed.
 Lemma stepl_m : forall s lb s', InvL s -> lstep s lb = Some s' ->
   ((pc (th s' 0) = PWait KAck \/ pc (th s' 0) = PWait KQuit) -> qu s' 0 <> [] -> flag s' 0 = true) /\
   (pc (th s' 0) = PWait KTop -> (search s' = true \/ quitf s' = true) ->
-     flag s' 0 = true \/ epc s' = ENotifyGo) /\
-  (pc (th s' 0) = MRdSearch -> quitf s' = true -> flag s' 0 = true) /\
+     flag s' 0 = true \/ epc s' <> EIdle) /\
+  (pc (th s' 0) = MRdSearch -> quitf s' = true -> flag s' 0 = true \/ epc s' <> EIdle) /\
   (search s' = true -> quitf s' = false) /\
   (mbusy (pc (th s' 0)) = true -> search s' = true).
 Proof.
